@@ -28,8 +28,8 @@ func irTargets(tier string) []irTarget {
 		{Dir: RepoDir, Patterns: []string{"./pattern", "./config", "./lintcmd/cache", "./analysis/dfa/...", "./go/gcsizes", "./structlayout"}},
 	}
 	if tier == "thorough" {
-		ts = append(ts, irTarget{Dir: RepoDir, Patterns: []string{"./unused", "./lintcmd", "./go/ir", "./analysis/code", "./analysis/facts/...", "./simple/...", "./quickfix/..."}})
-		ts = append(ts, irTarget{Dir: RepoDir, Patterns: []string{"sort", "strings", "strconv", "bytes", "container/heap", "path/filepath", "unicode/utf8", "go/token"}})
+		ts = append(ts, irTarget{Dir: RepoDir, Patterns: []string{"./unused", "./analysis/code", "./analysis/facts/...", "./lintcmd/runner"}})
+		ts = append(ts, irTarget{Dir: RepoDir, Patterns: []string{"sort", "strings", "strconv", "container/heap", "unicode/utf8"}})
 	}
 	return ts
 }
